@@ -81,6 +81,7 @@ pub fn run(ctx: &mut Ctx) {
         let method = if rng.chance(0.5) { SolveMethod::Sampled } else { SolveMethod::External };
         let spec = *rng.pick(&[ParamSpec::None, ParamSpec::Vanilla, ParamSpec::Lcfr, ParamSpec::CfrPlus, ParamSpec::Dcfr, ParamSpec::DcfrPrune]);
         let threads = *rng.pick(&[1usize, 1, 1, 2, 8]);
+        let threads = crate::props::c06::frontier_threads(rng, &tree, method, threads);
         let production = rng.chance(0.2);
         let mut at100 = None;
         let mut at3000 = None;
